@@ -184,6 +184,29 @@ CLAIMS = {
         "note": _TRUST + "http.client's _safe_read raising IncompleteRead is read from its source. F12 (read1 without amount) was repaired.",
         "technique": "static analysis: decision-table extraction on _raw_read, exceptional-path typestate on the chunk parser, handler/lattice queries",
     },
+    "C14": {
+        "text": ("Decides the structural clauses: everything parse_url does with the input sits inside one try whose handler turns "
+                 "ValueError/AttributeError into LocationParseError, the calls outside it are compiled-pattern searches and namedtuple "
+                 "construction, and every explicit raise in the reachable helpers is LocationParseError or a caught class (IDNA errors "
+                 "are converted); the authority group of _URI_RE is a class excluding exactly # / ? and backslash, the pattern anchored "
+                 "and DOTALL, groups unpacked in order; userinfo ends at the last '@' (rpartition); every _normalize_host return for "
+                 "http/https is lower-cased or guarded by a digits-and-dots pattern, schemes lowered in parse_url and Url(); the port "
+                 "reaches the result only after the 0..65535 test and its group admits at most five significant digits; none of the 13 "
+                 "compiled patterns has a super-linear backtracking shape; loops over the input contain no quadratic idiom. "
+                 "Declined: idempotence/re-parse equality, percent-encoding normal form, agreement with a reference parser on every string."),
+        "note": _TRUST + "TypeError raised by to_str on non-str input is outside the quantifier (strings).",
+        "technique": "static analysis: regex structure and backtracking-shape analysis on folded patterns, exception-funnel check over the call closure, must-pass-through def-use",
+    },
+    "C15": {
+        "text": ("Decides provenance: the pool (hence the address dialled) is selected by host, port and scheme of the one parse_url(url) "
+                 "result; absent ports default from port_by_scheme before keying; pools/connections are built for their own host and port; "
+                 "Url.request_uri reads only path and query ('/' when empty) and the absolute-form target drops auth and fragment; the "
+                 "dialled name is _dns_host while Host/SNI use it without trailing dot; the TLS server name loses brackets/zone id only for "
+                 "IP literals; the pool's host is bracket-stripped while CONNECT keeps brackets; scheme/host are lower-cased by parser and "
+                 "key normaliser. Declined: byte-identical requests; the Host line itself (http.client)."),
+        "note": _TRUST + "F10 (userinfo and fragment in the absolute-form target) was repaired in /repo.",
+        "technique": "static analysis: provenance tags through abstract interpretation of the drivers, read-set of Url views, def-use queries",
+    },
     "C16": {
         "text": ("Deliberately narrow. Decides only the storage discipline behind the multimap: every access to the storage dict uses a "
                  "lower-cased key; every list stored is built in that statement, copies build per-key fresh lists and no method returns a "
@@ -216,6 +239,20 @@ CLAIMS = {
         "note": _TRUST + "Def-use is flow-insensitive inside one function; unrecognised shapes are reported as ANALYSIS-ERROR, not as pass.",
         "technique": "static analysis: signature/key-table agreement + intra-function def-use and dict-mutation queries over the AST",
     },
+    "C19": {
+        "text": ("Decides the structure around the clock: every Timeout returned by _get_timeout is a clone()/from_float() result, "
+                 "clone() rebuilds from the three values and a new Timeout has no start stamp (only start_connect sets it); the three "
+                 "fields are stored only through _validate_timeout, whose decision table rejects bool before the numeric tests, "
+                 "non-numbers and value <= 0, passing None/default through; connect_timeout returns connect, total or min(connect, total) "
+                 "under the documented guards; read_timeout with a total is max(0, min(total - elapsed, read)) / max(0, total - elapsed); "
+                 "in _make_request the clock is started, then the connect timeout applied, then validation/connect and request, the read "
+                 "timeout (last computation) follows the request, a zero budget raises ReadTimeoutError without waiting and the read "
+                 "timeout is applied before getresponse(); request()/getresponse() call settimeout(self.timeout) first; the pool's "
+                 "timeout is used only for the default sentinel; socket.timeout and EAGAIN/EWOULDBLOCK map to ReadTimeoutError. "
+                 "Declined: arithmetic over elapsed time."),
+        "note": _TRUST + "F14 (tunnel set-up time through a CONNECT proxy is not deducted from total) is a known finding confirmed against the real code.",
+        "technique": "static analysis: decision-table extraction on _validate_timeout, min/max shape matching, event-order typestate on _make_request",
+    },
     "C20": {
         "text": ("Decides the structural soundness of the multipart encoder for all field contents: field name and filename reach a "
                  "header only through _render_parts -> _render_part -> the header formatter (default format_multipart_header_param); its "
@@ -231,5 +268,4 @@ CLAIMS = {
 
 _PENDING = "check not built yet in this session (static rules designed in DESIGN.md section 5); will be claimed once its rules run clean"
 
-NOT_APPLICABLE = {pid: _PENDING for pid in
-                  ["C14", "C15", "C19"]}
+NOT_APPLICABLE = {}
